@@ -236,6 +236,8 @@ impl G {
             }
             _ => {
                 if c11 && self.r.chance(1, 3) {
+                    format!("rt {} {}", self.r.pick(&["fab", "nets", "res", "binfo"]), self.r.range(0, 1 << 40))
+                } else if c11 && self.r.chance(1, 3) {
                     "coldreset".into()
                 } else if c11 && self.r.chance(1, 3) {
                     format!("fabrecover {}", self.r.pick(&[1u64, 1, 2, 3, 200, 255]))
@@ -347,7 +349,7 @@ fn h_compat(ops: &[String]) -> Vec<String> {
             last_sid = n(1);
         }
         match kind {
-            "freset" | "corrupt" | "hs" | "hsdone" | "coldreset" | "fabrecover" => {}
+            "freset" | "corrupt" | "hs" | "hsdone" | "coldreset" | "fabrecover" | "rt" => {}
             // group table writes have no handler on the root endpoint: a group key map write instead
             "grp" => res.push(format!("gkm {} {}", n(1), n(2))),
             // the real 1-second poll runs anyway: a subscription over the last session instead
@@ -393,6 +395,20 @@ pub fn gen(prop: &'static str, a: &Args) -> String {
     for id in 0..n_cases {
         let len = if a.thorough { r.range(8, 70) } else { r.range(8, 40) } as usize;
         let mark = out.buf.len();
+        if prop == "C11" && id % 12 == 7 {
+            // a case of TLV round trips only: every persisted structure the state-level harness can
+            // store by itself, values within (and at) the capacity limits
+            out.case(id, &header());
+            let mut w = World::new(cas.clone());
+            let mut rr = r.fork();
+            for _ in 0..10 {
+                let op = format!("rt {} {}", rr.pick(&["fab", "nets", "nets", "res", "res", "binfo"]), rr.range(0, 1 << 40));
+                step(&mut out, &cas, &mut w, &op);
+            }
+            out.buf.push_str("#nt\n");
+            out.stat("cases_roundtrip", 1);
+            continue;
+        }
         gen_case(&mut out, &cas, id, &mut r, prop, len);
         if id % h_every == 0 {
             // the same history (made handler-compatible) through the REAL cluster handlers
